@@ -1,6 +1,611 @@
-//! C19 — not built yet.
+//! C19 — kinds, typed accessors and grid construction are coherent.
+//!
+//! labels / inputs
+//!   val    VX value            all 18 `is_*` tests, HaystackKind of the value, all 20 `TryFrom<&Value>` impls
+//!   get    H(key) {dict}       all 17 typed `HaystackDict` getters for `key`, plus id / safe_id / ts
+//!   code   N                   `HaystackKind::try_from(N as u8)`           (all 256 codes on every run)
+//!   name   H(text)             `HaystackKind::try_from(text)`              (all names + near misses)
+//!   kinds  -                   the declared kinds with code, name and Display (exhaustive round trips)
+//!   grid   -|{meta} [ k {row}… `Grid::make_from_dicts(_with_meta)`
+//! Each case sends the matching `C19 <cmd> …` request to the model and checks the property's clauses
+//! directly on the real code.
+
 use crate::ctx::{CaseOut, Ctx};
+use crate::gen::{self, Cfg};
+use crate::rng::Rng;
+use crate::vx::{self, Rd};
+use libhaystack::val::kind::HaystackKind;
+use libhaystack::val::*;
 
-pub fn exec(_label: &str, _input: &str, _out: &mut CaseOut) {}
+// ---------------------------------------------------------------------------------------------
+// hand-written inventory (kept exhaustive by the wildcard-free matches below)
+// ---------------------------------------------------------------------------------------------
 
-pub fn generate(_ctx: &mut Ctx) {}
+/// index of the value's own variant in declaration order of `enum Value`
+fn variant_index(v: &Value) -> usize {
+    match v {
+        Value::Null => 0,
+        Value::Remove => 1,
+        Value::Marker => 2,
+        Value::Bool(_) => 3,
+        Value::Na => 4,
+        Value::Number(_) => 5,
+        Value::Str(_) => 6,
+        Value::Uri(_) => 7,
+        Value::Ref(_) => 8,
+        Value::Symbol(_) => 9,
+        Value::Date(_) => 10,
+        Value::Time(_) => 11,
+        Value::DateTime(_) => 12,
+        Value::Coord(_) => 13,
+        Value::XStr(_) => 14,
+        Value::List(_) => 15,
+        Value::Dict(_) => 16,
+        Value::Grid(_) => 17,
+    }
+}
+const VARIANT_NAMES: [&str; 18] = [
+    "Null", "Remove", "Marker", "Bool", "Na", "Number", "Str", "Uri", "Ref", "Symbol", "Date", "Time", "DateTime", "Coord",
+    "XStr", "List", "Dict", "Grid",
+];
+
+type Pred = fn(&Value) -> bool;
+/// (method, index of the variant it is named for)
+const PREDS: [(&str, Pred, usize); 18] = [
+    ("is_null", Value::is_null, 0),
+    ("is_remove", Value::is_remove, 1),
+    ("is_marker", Value::is_marker, 2),
+    ("is_bool", Value::is_bool, 3),
+    ("is_na", Value::is_na, 4),
+    ("is_number", Value::is_number, 5),
+    ("is_str", Value::is_str, 6),
+    ("is_uri", Value::is_uri, 7),
+    ("is_ref", Value::is_ref, 8),
+    ("is_symbol", Value::is_symbol, 9),
+    ("is_date", Value::is_date, 10),
+    ("is_time", Value::is_time, 11),
+    ("is_datetime", Value::is_datetime, 12),
+    ("is_coord", Value::is_coord, 13),
+    ("is_xstr", Value::is_xstr, 14),
+    ("is_list", Value::is_list, 15),
+    ("is_dict", Value::is_dict, 16),
+    ("is_grid", Value::is_grid, 17),
+];
+
+const ALL_KINDS: [HaystackKind; 18] = [
+    HaystackKind::Null,
+    HaystackKind::Remove,
+    HaystackKind::Marker,
+    HaystackKind::Na,
+    HaystackKind::Bool,
+    HaystackKind::Number,
+    HaystackKind::Str,
+    HaystackKind::Uri,
+    HaystackKind::Ref,
+    HaystackKind::Symbol,
+    HaystackKind::Date,
+    HaystackKind::Time,
+    HaystackKind::DateTime,
+    HaystackKind::Coord,
+    HaystackKind::XStr,
+    HaystackKind::List,
+    HaystackKind::Dict,
+    HaystackKind::Grid,
+];
+/// no wildcard: a new kind makes this harness fail to build (reported by `check`)
+fn kind_listed(k: HaystackKind) -> bool {
+    match k {
+        HaystackKind::Null
+        | HaystackKind::Remove
+        | HaystackKind::Marker
+        | HaystackKind::Na
+        | HaystackKind::Bool
+        | HaystackKind::Number
+        | HaystackKind::Str
+        | HaystackKind::Uri
+        | HaystackKind::Ref
+        | HaystackKind::Symbol
+        | HaystackKind::Date
+        | HaystackKind::Time
+        | HaystackKind::DateTime
+        | HaystackKind::Coord
+        | HaystackKind::XStr
+        | HaystackKind::List
+        | HaystackKind::Dict
+        | HaystackKind::Grid => ALL_KINDS.contains(&k),
+    }
+}
+
+fn items(mut v: Vec<(String, bool)>) -> String {
+    v.sort();
+    v.iter().map(|(n, b)| format!("{n}={}", *b as u8)).collect::<Vec<_>>().join(" ")
+}
+
+fn same(a: &Value, b: &Value) -> bool {
+    vx::show(a) == vx::show(b)
+}
+
+// ---------------------------------------------------------------------------------------------
+// val
+// ---------------------------------------------------------------------------------------------
+
+/// (target type, index of the variant it stands for, conversion succeeded, payload is the stored one)
+fn conversions(v: &Value) -> Vec<(&'static str, usize, bool, bool)> {
+    let mut r: Vec<(&'static str, usize, bool, bool)> = Vec::new();
+    macro_rules! whole {
+        ($name:expr, $t:ty, $idx:expr) => {
+            match <$t>::try_from(v) {
+                Ok(x) => r.push(($name, $idx, true, same(&Value::from(x), v))),
+                Err(_) => r.push(($name, $idx, false, true)),
+            }
+        };
+    }
+    match bool::try_from(v) {
+        Ok(b) => r.push(("bool", 3, true, matches!(v, Value::Bool(x) if x.value == b))),
+        Err(_) => r.push(("bool", 3, false, true)),
+    }
+    whole!("Bool", Bool, 3);
+    whole!("Coord", Coord, 13);
+    whole!("Date", Date, 10);
+    whole!("DateTime", DateTime, 12);
+    whole!("Dict", Dict, 16);
+    whole!("Grid", Grid, 17);
+    whole!("List", List, 15);
+    whole!("Marker", Marker, 2);
+    whole!("Na", Na, 4);
+    match f64::try_from(v) {
+        Ok(x) => r.push(("f64", 5, true, matches!(v, Value::Number(n) if n.value.to_bits() == x.to_bits()))),
+        Err(_) => r.push(("f64", 5, false, true)),
+    }
+    whole!("Number", Number, 5);
+    whole!("Ref", Ref, 8);
+    whole!("Remove", Remove, 1);
+    match String::try_from(v) {
+        Ok(s) => r.push(("String", 6, true, matches!(v, Value::Str(x) if x.value == s))),
+        Err(_) => r.push(("String", 6, false, true)),
+    }
+    whole!("Str", Str, 6);
+    whole!("Symbol", Symbol, 9);
+    whole!("Time", Time, 11);
+    whole!("Uri", Uri, 7);
+    whole!("XStr", XStr, 14);
+    r
+}
+
+fn exec_val(input: &str, out: &mut CaseOut) {
+    let v = match vx::parse(input) {
+        Some(v) => v,
+        None => return out.fail("harness", "unparsable C19 val input".into()),
+    };
+    out.nontrivial = true;
+    let me = variant_index(&v);
+    out.stat(&format!("kind:{}", VARIANT_NAMES[me]));
+    // --- variant tests ---------------------------------------------------------------------
+    let bits: Vec<(String, bool)> = PREDS.iter().map(|(n, f, _)| (n.to_string(), f(&v))).collect();
+    let n_true = bits.iter().filter(|(_, b)| *b).count();
+    if n_true != 1 {
+        out.fail("not_exactly_one_kind", format!("{n_true} of the is_* tests are true for {v:?}"));
+    }
+    for (n, f, idx) in PREDS.iter() {
+        if f(&v) != (*idx == me) {
+            out.fail("pred_wrong_kind", format!("{n} answers {} for a {} value", f(&v), VARIANT_NAMES[me]));
+        }
+    }
+    // --- HaystackKind ----------------------------------------------------------------------
+    let kind = HaystackKind::from(&v);
+    let code = kind as u8;
+    let name: &'static str = kind.into();
+    let display = kind.to_string();
+    if HaystackKind::try_from(code) != Ok(kind) {
+        out.fail("kind_code_rt", format!("{kind:?} as u8 = {code} but try_from({code}) = {:?}", HaystackKind::try_from(code)));
+    }
+    if HaystackKind::try_from(name) != Ok(kind) {
+        out.fail("kind_name_rt", format!("{kind:?} is named {name:?} but try_from({name:?}) = {:?}", HaystackKind::try_from(name)));
+    }
+    if display != name {
+        out.fail("kind_display", format!("{kind:?} displays as {display:?} but is named {name:?}"));
+    }
+    out.req(
+        format!("C19 preds {}", vx::show(&v)),
+        format!("ok {} K {code} {} {} {}", items(bits), vx::h(&format!("{kind:?}")), vx::h(name), vx::h(&display)),
+    );
+    // --- TryFrom<&Value> -------------------------------------------------------------------
+    let conv = conversions(&v);
+    for (t, idx, ok, payload) in conv.iter() {
+        if *ok != (*idx == me) {
+            out.fail("tryfrom_kind_mismatch", format!("{t}::try_from(&{}) succeeded = {ok}", VARIANT_NAMES[me]));
+        }
+        if !*payload {
+            out.fail("tryfrom_payload", format!("{t}::try_from returned something else than the stored payload of {v:?}"));
+        }
+    }
+    out.req(
+        format!("C19 conv {}", vx::show(&v)),
+        format!("ok {}", items(conv.iter().map(|(t, _, ok, _)| (t.to_string(), *ok)).collect())),
+    );
+}
+
+// ---------------------------------------------------------------------------------------------
+// get
+// ---------------------------------------------------------------------------------------------
+
+fn exec_get(input: &str, out: &mut CaseOut) {
+    let mut rd = Rd::new(input);
+    let (key, d) = match (rd.hs(), rd.dict()) {
+        (Some(k), Some(d)) => (k, d),
+        _ => return out.fail("harness", "unparsable C19 get input".into()),
+    };
+    out.nontrivial = true;
+    let stored = d.get(key.as_str());
+    let me: Option<usize> = stored.map(variant_index);
+    out.stat(match me {
+        None => "get:absent",
+        Some(_) => "get:present",
+    });
+    let k = key.as_str();
+    let mut bits: Vec<(String, bool)> = Vec::new();
+    // has_*: true iff the key holds that payload-free variant
+    for (n, got, idx) in [("has_marker", d.has_marker(k), 2usize), ("has_na", d.has_na(k), 4), ("has_remove", d.has_remove(k), 1)] {
+        if got != (me == Some(idx)) {
+            out.fail("getter_kind_mismatch", format!("{n}({key:?}) = {got} but the entry is {:?}", me.map(|i| VARIANT_NAMES[i])));
+        }
+        bits.push((n.to_string(), got));
+    }
+    // get_*: Some iff the key holds that variant, and then a reference to the stored payload itself
+    macro_rules! getter {
+        ($n:expr, $call:expr, $idx:expr, $var:path) => {{
+            let got = $call;
+            if got.is_some() != (me == Some($idx)) {
+                out.fail(
+                    "getter_kind_mismatch",
+                    format!("{}({key:?}).is_some() = {} but the entry is {:?}", $n, got.is_some(), me.map(|i| VARIANT_NAMES[i])),
+                );
+            }
+            if let (Some(r), Some($var(p))) = (got, stored) {
+                if !std::ptr::eq(r, p) {
+                    out.fail("getter_payload", format!("{}({key:?}) does not point to the stored payload", $n));
+                }
+            }
+            bits.push(($n.to_string(), got.is_some()));
+        }};
+    }
+    getter!("get_bool", d.get_bool(k), 3, Value::Bool);
+    getter!("get_num", d.get_num(k), 5, Value::Number);
+    getter!("get_str", d.get_str(k), 6, Value::Str);
+    getter!("get_xstr", d.get_xstr(k), 14, Value::XStr);
+    getter!("get_ref", d.get_ref(k), 8, Value::Ref);
+    getter!("get_uri", d.get_uri(k), 7, Value::Uri);
+    getter!("get_symbol", d.get_symbol(k), 9, Value::Symbol);
+    getter!("get_date", d.get_date(k), 10, Value::Date);
+    getter!("get_time", d.get_time(k), 11, Value::Time);
+    getter!("get_date_time", d.get_date_time(k), 12, Value::DateTime);
+    getter!("get_coord", d.get_coord(k), 13, Value::Coord);
+    getter!("get_dict", d.get_dict(k), 16, Value::Dict);
+    getter!("get_list", d.get_list(k), 15, Value::List);
+    getter!("get_grid", d.get_grid(k), 17, Value::Grid);
+    // getters with a fixed key
+    let mut keyed: Vec<(String, bool)> = Vec::new();
+    let id_entry = d.get("id");
+    let id_is_ref = matches!(id_entry, Some(Value::Ref(_)));
+    match (d.id(), id_entry) {
+        (Some(r), Some(Value::Ref(p))) if std::ptr::eq(r, p) => {}
+        (None, e) if !matches!(e, Some(Value::Ref(_))) => {}
+        (got, e) => out.fail("getter_kind_mismatch", format!("id() = {got:?} but the entry `id` is {e:?}")),
+    }
+    keyed.push(("id".into(), d.id().is_some()));
+    let sid = d.safe_id();
+    match id_entry {
+        Some(Value::Ref(p)) => {
+            if sid.value != p.value || sid.dis != p.dis {
+                out.fail("getter_payload", format!("safe_id() = {sid:?} but the entry `id` is {p:?}"));
+            }
+        }
+        e => {
+            let def = Ref::default();
+            if sid.value != def.value || sid.dis != def.dis {
+                out.fail("getter_kind_mismatch", format!("safe_id() = {sid:?} but the entry `id` is {e:?}"));
+            }
+        }
+    }
+    keyed.push(("safe_id".into(), id_is_ref));
+    let mod_entry = d.get("mod");
+    match (d.ts(), mod_entry) {
+        (Some(r), Some(Value::DateTime(p))) if std::ptr::eq(r, p) => {}
+        (None, e) if !matches!(e, Some(Value::DateTime(_))) => {}
+        (got, e) => out.fail("getter_kind_mismatch", format!("ts() = {got:?} but the entry `mod` is {e:?}")),
+    }
+    keyed.push(("ts".into(), d.ts().is_some()));
+    // has / missing are the untyped pair
+    if d.has(k) != stored.is_some() || d.missing(k) == stored.is_some() {
+        out.fail("getter_kind_mismatch", format!("has({key:?}) / missing({key:?}) disagree with the entry"));
+    }
+    let mut toks = Vec::new();
+    vx::w_dict(&d, &mut toks);
+    out.req(format!("C19 get {} {}", vx::h(&key), toks.join(" ")), format!("ok {} | {}", items(bits), items(keyed)));
+}
+
+// ---------------------------------------------------------------------------------------------
+// code / name / kinds
+// ---------------------------------------------------------------------------------------------
+
+fn exec_code(input: &str, out: &mut CaseOut) {
+    let n: u16 = match input.trim().parse() {
+        Ok(n) if n < 256 => n,
+        _ => return out.fail("harness", "unparsable C19 code input".into()),
+    };
+    let n = n as u8;
+    out.nontrivial = true;
+    match HaystackKind::try_from(n) {
+        Ok(k) => {
+            out.stat("code:kind");
+            if k as u8 != n {
+                out.fail("kind_code_rt", format!("try_from({n}) = {k:?} but {k:?} as u8 = {}", k as u8));
+            }
+            if !kind_listed(k) {
+                out.fail("kind_code_rt", format!("try_from({n}) = {k:?}: not a listed kind"));
+            }
+            let name: &'static str = k.into();
+            out.req(
+                format!("C19 code {n}"),
+                format!("ok {} {} {}", vx::h(&format!("{k:?}")), vx::h(name), vx::h(&k.to_string())),
+            );
+        }
+        Err(_) => {
+            out.stat("code:err");
+            if let Some(k) = ALL_KINDS.iter().find(|k| **k as u8 == n) {
+                out.fail("kind_code_rt", format!("{k:?} as u8 = {n} but try_from({n}) is an error"));
+            }
+            out.req(format!("C19 code {n}"), "err".into());
+        }
+    }
+}
+
+fn exec_name(input: &str, out: &mut CaseOut) {
+    let s = match vx::unh(input.trim()) {
+        Some(s) => s,
+        None => return out.fail("harness", "unparsable C19 name input".into()),
+    };
+    out.nontrivial = true;
+    match HaystackKind::try_from(s.as_str()) {
+        Ok(k) => {
+            out.stat("name:kind");
+            let name: &'static str = k.into();
+            if name != s {
+                out.fail("kind_name_rt", format!("try_from({s:?}) = {k:?} but {k:?} is named {name:?}"));
+            }
+            out.req(format!("C19 name {}", vx::h(&s)), format!("ok {} {}", vx::h(&format!("{k:?}")), k as u8));
+        }
+        Err(_) => {
+            out.stat("name:err");
+            if let Some(k) = ALL_KINDS.iter().find(|k| <&'static str>::from(**k) == s) {
+                out.fail("kind_name_rt", format!("{k:?} is named {s:?} but try_from({s:?}) is an error"));
+            }
+            out.req(format!("C19 name {}", vx::h(&s)), "err".into());
+        }
+    }
+}
+
+fn exec_kinds(out: &mut CaseOut) {
+    out.nontrivial = true;
+    let mut rows: Vec<String> = Vec::new();
+    for (i, k) in ALL_KINDS.iter().enumerate() {
+        let code = *k as u8;
+        let name: &'static str = (*k).into();
+        if HaystackKind::try_from(code) != Ok(*k) {
+            out.fail("kind_code_rt", format!("{k:?} as u8 = {code} but try_from({code}) = {:?}", HaystackKind::try_from(code)));
+        }
+        if HaystackKind::try_from(name) != Ok(*k) {
+            out.fail("kind_name_rt", format!("{k:?} is named {name:?} but try_from({name:?}) = {:?}", HaystackKind::try_from(name)));
+        }
+        if k.to_string() != name {
+            out.fail("kind_display", format!("{k:?} displays as {:?} but is named {name:?}", k.to_string()));
+        }
+        for j in ALL_KINDS.iter().skip(i + 1) {
+            let jn: &'static str = (*j).into();
+            if *j as u8 == code || jn == name {
+                out.fail("kind_not_injective", format!("{k:?} and {j:?} share a code or a name"));
+            }
+        }
+        rows.push(format!("{k:?}={code}"));
+    }
+    rows.sort();
+    out.req("C19 kinds".into(), format!("ok {}", rows.join(" ")));
+}
+
+// ---------------------------------------------------------------------------------------------
+// grid
+// ---------------------------------------------------------------------------------------------
+
+fn exec_grid(input: &str, out: &mut CaseOut) {
+    let mut rd = Rd::new(input);
+    let meta = match rd.odict() {
+        Some(m) => m,
+        None => return out.fail("harness", "unparsable C19 grid input (meta)".into()),
+    };
+    let rows: Vec<Dict> = match rd.val() {
+        Some(Value::List(l)) => {
+            let mut rows = Vec::new();
+            for v in l {
+                match v {
+                    Value::Dict(d) => rows.push(d),
+                    _ => return out.fail("harness", "C19 grid input: row is not a dict".into()),
+                }
+            }
+            rows
+        }
+        _ => return out.fail("harness", "unparsable C19 grid input (rows)".into()),
+    };
+    out.nontrivial = !rows.is_empty();
+    out.stat(&format!("grid:rows={}", rows.len().min(6)));
+    let grid = match &meta {
+        None => Grid::make_from_dicts(rows.clone()),
+        Some(m) => Grid::make_from_dicts_with_meta(rows.clone(), m.clone()),
+    };
+    // rows preserved, in order
+    if grid.rows.len() != rows.len() || grid.rows.iter().zip(rows.iter()).any(|(a, b)| !same(&Value::Dict(a.clone()), &Value::Dict(b.clone()))) {
+        out.fail("grid_rows", format!("rows of the grid differ from the records: {:?} vs {:?}", grid.rows, rows));
+    }
+    // columns strictly ascending (sorted, no duplicate)
+    for w in grid.columns.windows(2) {
+        if w[0].name >= w[1].name {
+            out.fail("grid_cols_order", format!("column {:?} is followed by {:?}", w[0].name, w[1].name));
+        }
+    }
+    // columns = union of the row keys
+    for r in rows.iter() {
+        for k in r.keys() {
+            if !grid.columns.iter().any(|c| &c.name == k) {
+                out.fail("grid_key_without_col", format!("row key {k:?} is not a column"));
+            }
+        }
+    }
+    for c in grid.columns.iter() {
+        if !rows.iter().any(|r| r.contains_key(c.name.as_str())) {
+            out.fail("grid_col_without_key", format!("column {:?} is no key of any row", c.name));
+        }
+    }
+    // meta as given
+    match (&meta, &grid.meta) {
+        (None, None) => {}
+        (Some(a), Some(b)) if same(&Value::Dict(a.clone()), &Value::Dict(b.clone())) => {}
+        (a, b) => out.fail("grid_meta", format!("meta {b:?}, expected {a:?}")),
+    }
+    let mut toks = Vec::new();
+    vx::w_odict(&meta, &mut toks);
+    out.req(
+        format!("C19 grid {} {}", toks.join(" "), vx::show(&Value::List(rows.into_iter().map(Value::Dict).collect()))),
+        format!("ok {}", vx::show(&Value::Grid(grid))),
+    );
+}
+
+pub fn exec(label: &str, input: &str, out: &mut CaseOut) {
+    match label.split(':').next().unwrap_or(label) {
+        "val" => exec_val(input, out),
+        "get" => exec_get(input, out),
+        "code" => exec_code(input, out),
+        "name" => exec_name(input, out),
+        "kinds" => exec_kinds(out),
+        "grid" => exec_grid(input, out),
+        _ => out.fail("harness", format!("unknown C19 label {label}")),
+    }
+}
+
+// ---------------------------------------------------------------------------------------------
+// generation
+// ---------------------------------------------------------------------------------------------
+
+fn any_value(rng: &mut Rng) -> Value {
+    let cfg = if rng.chance(1, 2) { Cfg::any(3) } else { Cfg::wf(3) };
+    gen::value(rng, &cfg)
+}
+
+fn row_key(rng: &mut Rng) -> String {
+    match rng.below(8) {
+        0..=4 => gen::ident(rng),
+        5 => rng.pick(&["é", "e", "z", "Z", "€", "\u{ffff}", "😀", "\u{10ffff}", "", "a b", "A", "aa", "a\u{0}"]).to_string(),
+        _ => gen::text(rng),
+    }
+}
+
+fn get_case(rng: &mut Rng) -> String {
+    let cfg = Cfg::any(2);
+    let mut d = gen::dict(rng, &cfg, 1);
+    // make the interesting keys likely, with right and wrong kinds
+    if rng.chance(1, 2) {
+        let v = if rng.chance(1, 2) { Value::Ref(Ref { value: gen::ref_id(rng), dis: None }) } else { any_value(rng) };
+        d.insert("id".into(), v);
+    }
+    if rng.chance(1, 2) {
+        let v = if rng.chance(1, 2) { Value::DateTime(gen::datetime(rng, &cfg)) } else { any_value(rng) };
+        d.insert("mod".into(), v);
+    }
+    let target = any_value(rng);
+    let k = row_key(rng);
+    d.insert(k.clone(), target);
+    let key = match rng.below(6) {
+        0 => row_key(rng),                 // most likely absent
+        1 => "id".to_string(),
+        2 => "mod".to_string(),
+        _ => k,
+    };
+    let mut toks = Vec::new();
+    vx::w_dict(&d, &mut toks);
+    format!("{} {}", vx::h(&key), toks.join(" "))
+}
+
+fn grid_case(rng: &mut Rng) -> String {
+    let nrows = match rng.below(8) {
+        0 => 0,
+        1 => 1,
+        _ => 1 + rng.below(6),
+    };
+    let pool: Vec<String> = (0..(1 + rng.below(7))).map(|_| row_key(rng)).collect();
+    let mut rows = Vec::new();
+    for _ in 0..nrows {
+        let mut d = Dict::new();
+        let n = rng.below(6);
+        for _ in 0..n {
+            let k = if rng.chance(4, 5) { rng.pick(&pool).clone() } else { row_key(rng) };
+            d.insert(k, gen::scalar(rng, &Cfg::any(1)));
+        }
+        rows.push(Value::Dict(d));
+    }
+    let meta = if rng.chance(1, 3) { Some(gen::dict(rng, &Cfg::any(2), 1)) } else { None };
+    let mut toks = Vec::new();
+    vx::w_odict(&meta, &mut toks);
+    format!("{} {}", toks.join(" "), vx::show(&Value::List(rows)))
+}
+
+pub fn generate(ctx: &mut Ctx) {
+    // exhaustive parts, on every run
+    ctx.case("kinds", "-");
+    for n in 0..256u32 {
+        ctx.case("code", &n.to_string());
+    }
+    let mut names: Vec<String> = Vec::new();
+    for k in ALL_KINDS.iter() {
+        let n: &'static str = (*k).into();
+        names.push(n.to_string());
+        names.push(k.to_string());
+        names.push(format!("{k:?}"));
+        names.push(n.to_uppercase());
+        names.push(n.to_lowercase());
+        names.push(format!("{n} "));
+        names.push(format!(" {n}"));
+        names.push(n[..n.len() - 1].to_string());
+        names.push(format!("{n}{n}"));
+    }
+    names.push(String::new());
+    names.push("datetime".into());
+    names.push("string".into());
+    names.push("symbols".into());
+    names.push("nul".into());
+    for n in names {
+        ctx.case("name", &vx::h(&n));
+    }
+    let n_rand_names = ctx.n(200, 5000);
+    for _ in 0..n_rand_names {
+        let mut rng = ctx.rng.fork();
+        let s = if rng.chance(1, 2) { gen::ident(&mut rng) } else { gen::text(&mut rng) };
+        ctx.case("name", &vx::h(&s));
+    }
+    // one value of every variant first, then random ones
+    let n_val = ctx.n(4000, 150_000);
+    for _ in 0..n_val {
+        let mut rng = ctx.rng.fork();
+        let v = any_value(&mut rng);
+        ctx.case("val", &vx::show(&v));
+    }
+    let n_get = ctx.n(4000, 150_000);
+    for _ in 0..n_get {
+        let mut rng = ctx.rng.fork();
+        let inp = get_case(&mut rng);
+        ctx.case("get", &inp);
+    }
+    let n_grid = ctx.n(3000, 100_000);
+    for _ in 0..n_grid {
+        let mut rng = ctx.rng.fork();
+        let inp = grid_case(&mut rng);
+        ctx.case("grid", &inp);
+    }
+}
